@@ -119,75 +119,3 @@ Lemma constrain_sound : forall a (P : obj -> Prop) o v,
   asound a P -> P o -> member o v = true -> member o (constrain v a) = true.
 Proof. intros a P o v Ha Hp Hm. unfold constrain. apply (apply_all_sound _ P o Ha Hp v Hm). Qed.
 
-(* ---- the same for "never widens": every object of the result was in the
-        input or is in the tested type T ---- *)
-Definition knw (k : constr) (T : value) : Prop :=
-  forall s o, member o (apply_constr k s) = true -> member_s o s = true \/ member o T = true.
-
-Lemma apply_all_nw : forall ks T o,
-  (forall k, In k ks -> knw k T) ->
-  forall v, member o (apply_all ks v) = true -> member o v = true \/ member o T = true.
-Proof.
-  induction ks as [|k ks IH]; intros T o Hks v Hm.
-  - left. exact Hm.
-  - unfold apply_all in Hm. simpl in Hm.
-    destruct (IH T o (fun k' Hin => Hks k' (or_intror Hin)) _ Hm) as [H|H]; [|right; exact H].
-    apply member_flat_map_inv in H. destruct H as [s [Hin Hs]].
-    destruct (Hks k (or_introl eq_refl) s o Hs) as [H'|H']; [|right; exact H'].
-    left. apply member_in. exists s. split; assumption.
-Qed.
-
-Lemma knw_allof : forall cs T, (forall k, In k cs -> knw k T) -> knw (KAllOf cs) T.
-Proof.
-  intros cs T H s o Hm. rewrite allof_unfold in Hm.
-  destruct (apply_all_nw cs T o H [s] Hm) as [H'|H']; [left|right; exact H'].
-  rewrite member_single in H'. exact H'.
-Qed.
-
-Lemma knw_from_list : forall l T, (forall k, In k l -> knw k T) -> knw (from_list l) T.
-Proof.
-  intros l T H. destruct l as [|c [|c' r]]; simpl.
-  - apply knw_allof. exact H.
-  - apply H. left. reflexivity.
-  - apply knw_allof. exact H.
-Qed.
-
-Lemma knw_oneof2 : forall k1 k2 T, knw k1 T -> knw k2 T -> knw (KOneOf [k1; k2]) T.
-Proof.
-  intros k1 k2 T H1 H2 s o Hm. rewrite oneof_unfold2, member_app in Hm.
-  apply orb_true_iff in Hm. destruct Hm as [Hm|Hm]; [apply (H1 s o Hm)|apply (H2 s o Hm)].
-Qed.
-
-Lemma knw_weaken : forall k T T', (forall o, member o T = true -> member o T' = true) -> knw k T -> knw k T'.
-Proof.
-  intros k T T' H Hk s o Hm. destruct (Hk s o Hm) as [H'|H']; [left; exact H'|right; apply H; exact H'].
-Qed.
-
-Definition anw (a : acon) (T : value) : Prop := forall k, In k (apply_acon a) -> knw k T.
-
-Lemma anw_weaken : forall a T T', (forall o, member o T = true -> member o T' = true) -> anw a T -> anw a T'.
-Proof. intros a T T' H Ha k Hin. apply (knw_weaken k T T' H). apply Ha. exact Hin. Qed.
-
-Lemma anw_null : forall T, anw ANull T.
-Proof. intros T k []. Qed.
-
-Lemma anw_leaf : forall k T, knw k T -> anw (ALeaf k) T.
-Proof. intros k T H k' [<-|[]]. exact H. Qed.
-
-Lemma anw_and : forall a b T, anw a T -> anw b T -> anw (AAnd a b) T.
-Proof.
-  intros a b T Ha Hb k Hin. simpl in Hin. apply in_app_or in Hin. destruct Hin; [apply Ha|apply Hb]; assumption.
-Qed.
-
-Lemma anw_or : forall a b T, anw a T -> anw b T -> anw (AOr a b) T.
-Proof.
-  intros a b T Ha Hb k Hin. cbn [apply_acon] in Hin. unfold anw in Ha, Hb.
-  destruct (apply_acon a) as [|ka ra] eqn:Ea; [destruct Hin|].
-  destruct (apply_acon b) as [|kb rb] eqn:Eb; [destruct Hin|].
-  destruct Hin as [<-|[]].
-  apply knw_oneof2; apply knw_from_list; assumption.
-Qed.
-
-Lemma constrain_nw : forall a T o v,
-  anw a T -> member o (constrain v a) = true -> member o v = true \/ member o T = true.
-Proof. intros a T o v Ha Hm. unfold constrain in Hm. apply (apply_all_nw _ T o Ha v Hm). Qed.
